@@ -3,6 +3,7 @@
 package handler
 
 import (
+	"crypto/hmac"
 	"crypto/rand"
 	"crypto/rsa"
 	"crypto/sha256"
@@ -236,6 +237,14 @@ func verifEncryptChunks(plain []byte) ([]byte, error) {
 	return out, nil
 }
 
+// verifHmacRef is the documented signature, computed with the standard library only (never via lib/codec):
+// base64(HMAC-SHA256(key, content)).
+func verifHmacRef(key []byte, content string) string {
+	h := hmac.New(sha256.New, key)
+	h.Write([]byte(content))
+	return base64.StdEncoding.EncodeToString(h.Sum(nil))
+}
+
 func verifSha(body string) string { return fmt.Sprintf("%x", sha256.Sum256([]byte(body))) }
 
 type verifOpt struct {
@@ -297,7 +306,7 @@ func verifSig(raw json.RawMessage) any {
 	if c.SigRaw != nil {
 		sig = *c.SigRaw
 	} else {
-		sig = codec.HmacBase64(signKey, signContent)
+		sig = verifHmacRef(signKey, signContent)
 	}
 	header := strings.ReplaceAll(strings.ReplaceAll(c.Header, "{SECRET}", secret), "{SIG}", sig)
 
@@ -455,7 +464,7 @@ func verifSig(raw json.RawMessage) any {
 	}
 	for _, k := range keys {
 		for _, ct := range []string{sentContent, signContent} {
-			macTab = append(macTab, macRow{Key: base64.StdEncoding.EncodeToString(k), Content: ct, Mac: codec.HmacBase64(k, ct)})
+			macTab = append(macTab, macRow{Key: base64.StdEncoding.EncodeToString(k), Content: ct, Mac: verifHmacRef(k, ct)})
 		}
 	}
 	type shaRow struct {
